@@ -263,7 +263,7 @@ Qed.
 (* ... and once captured the prefix survives every navigation operation *)
 Lemma go_to_history_hst c s i : hst (go_to_history c s i) = hst s.
 Proof.
-  unfold go_to_history. destruct (i <? len (wl s)); [|reflexivity].
+  unfold go_to_history. destruct ((0 <=? i) && (i <? len (wl s))); [|reflexivity].
   rewrite set_cursor_hst, set_wi_hst. reflexivity.
 Qed.
 
@@ -282,7 +282,7 @@ Proof.
   destruct o; cbn [is_nav] in Ho; try contradiction; cbn [step_core ok fst snd].
   - apply history_backward_hst; assumption.
   - apply history_forward_hst; assumption.
-  - destruct (i <? - len (wl s)); cbn [ok fst snd]; [exact Hh | rewrite go_to_history_hst; exact Hh].
+  - rewrite go_to_history_hst; exact Hh.
   - unfold auto_up, cursor_up. destruct (0 <? _).
     + unfold set_pref; proj. rewrite set_cursor_hst. exact Hh.
     + destruct (sel s); [exact Hh|]. destruct gts; [unfold go_start_of_line; rewrite set_cursor_hst|];
